@@ -26,6 +26,20 @@ def main():
             p = subprocess.run(["/verif/bin/check", i, "--tier", tier], capture_output=True, text=True)
             v = [l for l in p.stdout.split("\n") if l.startswith("VIOLATION")]
             results[i] = {"exit": p.returncode, "violation": v[:3]}
+            try:
+                cov = json.load(open(f"/verif/evidence/{i}.json"))["coverage"]
+                nat = cov.get("native") or {}
+                results[i]["noticed_by"] = {
+                    "T_failed_obligations": [f.split(":")[1] for f in (cov.get("trace") or {}).get("failed", [])],
+                    "D_disagreements": cov.get("disagreements", 0),
+                    "O_failures": cov.get("oracle_failures", 0),
+                    "N_failing_checks": [k for k, c in (nat.get("checks") or {}).items() if c.get("fails")],
+                    "mq_disagreements": nat.get("model_query_disagreements", 0),
+                    "I_uncovered": len((cov.get("impl_inventory") or {}).get("uncovered", [])),
+                }
+                print("   noticed by:", json.dumps(results[i]["noticed_by"]), flush=True)
+            except Exception as e:
+                print("   (no evidence read:", e, ")")
             print(i, f"exit={p.returncode}", v[0] if v else "-", flush=True)
             if p.returncode not in (0, 1):
                 print(p.stdout[-1500:], p.stderr[-1500:])
